@@ -178,6 +178,8 @@ def handleFx (fx : Fx) (items : List Sexp) : String :=
       | .ok (some sz) =>
         if sz < minLen then "ok nomatch" else resStr pairStr (runSliceRangeG fx r idx (to == 1)))
     | _, _, _, _ => bad
+  | [.atom "hostop", g, next, extra] => match g.int?, next.int?, extra.int? with
+    | some g, some next, some extra => resStr toString (hostOp (g == 1) next extra) | _, _, _ => bad
   | [.atom "sidx", idx, size] => match idx.int?, size.int? with
     | some idx, some size => resStr toString (signedIndexToUnsigned idx size) | _, _ => bad
   | [.atom "rem", a, b] => match a.int?, b.int? with
